@@ -447,6 +447,46 @@ class Body:
                 if st.kind == "assign":
                     yield b, si, st
 
+    def places(self, live_only=True):
+        """Yield (block_idx, place, 'w'|'r') for every place mentioned in live, non-cleanup blocks."""
+        live = self.live_blocks() if live_only else None
+
+        def ops(o):
+            if o is not None and o.kind != "const":
+                yield o.place
+
+        for b in self.blocks:
+            if b.cleanup or (live is not None and b.idx not in live):
+                continue
+            for st in b.stmts:
+                if st.kind != "assign":
+                    continue
+                yield b.idx, st.dest, "w"
+                rv = st.rv
+                for k in ("a", "b"):
+                    if isinstance(rv.get(k), Operand):
+                        for p in ops(rv[k]):
+                            yield b.idx, p, "r"
+                if isinstance(rv.get("p"), Place):
+                    yield b.idx, rv["p"], "r"
+                for o in rv.get("ops", []) or []:
+                    for p in ops(o):
+                        yield b.idx, p, "r"
+            t = b.term
+            d = t.d
+            if t.kind == "call":
+                for o in d["args"]:
+                    for p in ops(o):
+                        yield b.idx, p, "r"
+                yield b.idx, d["d"], "w"
+            elif t.kind == "switch":
+                for p in ops(d["a"]):
+                    yield b.idx, p, "r"
+            elif t.kind == "assert":
+                for o in [d["cond"]] + d["ops"]:
+                    for p in ops(o):
+                        yield b.idx, p, "r"
+
     def where(self, block=None, line=None):
         if line is None and block is not None:
             line = self.blocks[block].term.line
